@@ -438,7 +438,71 @@ class C12(Check):
             if i % nshards != shard:
                 continue
             self.run_failcell(ctx, cell)
+        if shard == 0:
+            self.run_failed_init_leaves_no_trace(ctx)
         return None
+
+    def run_failed_init_leaves_no_trace(self, ctx):
+        """an Init that FAILS (wrong key type for the mechanism, malformed parameters, disabled usage) on any key - in particular on a private
+        CKA_ALWAYS_AUTHENTICATE key - leaves nothing behind: the same session then runs an ordinary operation exactly like a fresh session"""
+        from vlib.objects import base_template
+        prog = {"failcell": ["failcell", "INIT", "enc", "failed_init_leaves_no_trace", 0]}
+        self._ctx, self._prog, self._desc = ctx, prog, "failed Init leaves no trace"
+        stage = ctx.shared["stage"]
+        w = stage.fresh()
+        tok = ctx.shared["tpl"].tokens[0]
+        s = w.C_OpenSession(slot=tok.slot, flags=RW)["h"]
+        try:
+            if w.C_Login(s=s, user=K.CKU_USER, pin=hx(tok.user_pin))["rv"] != 0:
+                raise RuntimeError("login failed")
+            def mk(tpl_):
+                r = w.C_CreateObject(s=s, tpl=tpl_)
+                if r["rv"] != 0:
+                    raise RuntimeError("key setup: %s" % K.rvname(r["rv"]))
+                return r["h"]
+            aa = mk(T(*base_template("rsa_priv", 0)) + T(("CKA_TOKEN", False), ("CKA_PRIVATE", True), ("CKA_SIGN", True), ("CKA_DECRYPT", True), ("CKA_ALWAYS_AUTHENTICATE", True)))
+            nosign = mk(T(*base_template("rsa_priv", 0)) + T(("CKA_TOKEN", False), ("CKA_PRIVATE", True), ("CKA_SIGN", False), ("CKA_DECRYPT", False), ("CKA_ALWAYS_AUTHENTICATE", True)))
+            plain = mk(T(*base_template("rsa_priv", 0)) + T(("CKA_TOKEN", False), ("CKA_PRIVATE", False), ("CKA_SIGN", True), ("CKA_DECRYPT", True)))
+            aes = mk(T(("CKA_CLASS", "CKO_SECRET_KEY"), ("CKA_KEY_TYPE", "CKK_AES"), ("CKA_VALUE", b"K" * 16), ("CKA_TOKEN", False), ("CKA_PRIVATE", False), ("CKA_SIGN", True),
+                       ("CKA_ENCRYPT", True)))
+            badpss = {"pss": {"hash": K.CKM_SHA_1, "mgf": K.CKG_MGF1_SHA256, "slen": 20}}
+            failing = [("C_SignInit", {"m": K.CKM_ECDSA}, aa), ("C_SignInit", {"m": K.CKM_SHA256_RSA_PKCS_PSS, "p": badpss}, aa), ("C_SignInit", {"m": K.CKM_RSA_PKCS_PSS, "p": badpss}, aa),
+                       ("C_SignInit", {"m": K.CKM_RSA_PKCS}, nosign), ("C_SignInit", {"m": K.CKM_AES_CMAC}, aa), ("C_SignInit", {"m": K.CKM_SHA256_HMAC}, aa),
+                       ("C_DecryptInit", {"m": K.CKM_AES_CBC_PAD, "p": {"raw": "00" * 16}}, aa), ("C_DecryptInit", {"m": K.CKM_RSA_PKCS}, nosign),
+                       ("C_DecryptInit", {"m": K.CKM_RSA_PKCS_OAEP, "p": {"oaep": {"hash": K.CKM_SHA256, "mgf": K.CKG_MGF1_SHA1, "source": K.CKZ_DATA_SPECIFIED}}}, aa),
+                       ("C_SignInit", {"m": K.CKM_RSA_PKCS}, 0x7FFFFF), ("C_VerifyInit", {"m": K.CKM_RSA_PKCS}, aa), ("C_EncryptInit", {"m": K.CKM_RSA_PKCS}, aa)]
+            # what a fresh session answers
+            s2 = w.C_OpenSession(slot=tok.slot, flags=RW)["h"]
+            def canon(sess):
+                out = []
+                out.append(w.C_SignInit(s=sess, mech={"m": K.CKM_RSA_PKCS}, key=plain)["rv"])
+                r_ = w.C_Sign(s=sess, data="31" * 20, out=512)
+                out.append((r_["rv"], r_["out"].get("data")))
+                out.append(w.C_SignInit(s=sess, mech={"m": K.CKM_AES_CMAC}, key=aes)["rv"])
+                r_ = w.C_Sign(s=sess, data="32" * 20, out=64)
+                out.append((r_["rv"], r_["out"].get("data")))
+                out.append(w.C_Login(s=sess, user=K.CKU_CONTEXT_SPECIFIC, pin=hx(tok.user_pin))["rv"])
+                return out
+            want = canon(s2)
+            w.C_CloseSession(s=s2)
+            for fn, mech, key in failing:
+                sx = w.C_OpenSession(slot=tok.slot, flags=RW)["h"]
+                r = w.call(fn, s=sx, mech=mech, key=key)
+                if r["rv"] == K.CKR_OK:
+                    ctx.label("failed_init_cells_init_ok")
+                else:
+                    got = canon(sx)
+                    if got != want:
+                        raise self.V("after %s(%s) FAILED with %s, the same session does not behave like a fresh one: sign with an ordinary RSA key, CMAC, context-specific "
+                                     "login with nothing pending answer %s, a fresh session answers %s" % (
+                                         fn, K.name("CKM", mech["m"]), K.rvname(r["rv"]), [x if isinstance(x, int) else x[0] for x in got],
+                                         [x if isinstance(x, int) else x[0] for x in want]))
+                    ctx.label("failed_init_cells")
+                w.C_CloseSession(s=sx)
+            ctx.case(prog, True, ["failcell"])
+        finally:
+            w.C_Logout(s=s)
+            w.C_CloseSession(s=s)
 
     def run_failcell(self, ctx, cell):
         _, name, direction, how, rsa = cell
@@ -527,6 +591,8 @@ class C12(Check):
 
     def run_program(self, ctx, prog):
         if isinstance(prog, dict) and prog.get("failcell"):
+            if prog["failcell"][1] == "INIT":
+                return self.run_failed_init_leaves_no_trace(ctx)
             return self.run_failcell(ctx, prog["failcell"])
         self._ctx, self._prog = ctx, prog
         sp = SPECS[prog["spec"]]
